@@ -1,4 +1,20 @@
 package main
 
+import "strconv"
+
 func factsC02() {
+	// cmdResponseOK("set server"): strings.HasPrefix(response, <lit>)
+	var pfx []string
+	for _, a := range callArgs("pkg/haproxy/dynupdate.go", "cmdResponseOK", "strings.HasPrefix", 1) {
+		s, err := strconv.Unquote(a)
+		if err != nil {
+			fail("cmdResponseOK prefix %q", a)
+		}
+		pfx = append(pfx, s)
+	}
+	addStrList("c02OkPrefixes", pfx, "dynupdate.go cmdResponseOK: accepted response prefixes of `set server`")
+	args0 := callArgs("pkg/haproxy/types/backend.go", "AddEmptyEndpoint", "b.AddEndpoint", 0)
+	args1 := callArgs("pkg/haproxy/types/backend.go", "AddEmptyEndpoint", "b.AddEndpoint", 1)
+	addStr("c02EmptyAddr", one(args0, "empty slot address"), "backend.go AddEmptyEndpoint: address of an empty slot")
+	addInt("c02EmptyPort", one(args1, "empty slot port"), "backend.go AddEmptyEndpoint: port of an empty slot")
 }
